@@ -15,6 +15,7 @@ pub mod c10;
 pub mod c11;
 pub mod c12;
 pub mod c13;
+pub mod c14;
 pub mod c16;
 pub mod c17;
 pub mod c18;
@@ -46,6 +47,7 @@ pub fn all() -> Vec<CheckDef> {
         c11::def(),
         c12::def(),
         c13::def(),
+        c14::def(),
         srvchecks::def_c15(),
         c16::def(),
         c17::def(),
